@@ -2,7 +2,7 @@
 From Coq.Strings Require Import Byte String.
 From Coq Require Import List NArith ZArith Bool.
 From Model Require Import Bytes Utf8 Frame Parser FrameParser Response Conn.
-From Proofs Require Import ApiFacts TraceFacts ConnFacts DeliveryFacts.
+From Proofs Require Import ApiFacts TraceFacts ConnFacts DeliveryFacts DeliveryZ.
 From RecordUpdate Require Import RecordSet.
 Import ListNotations RecordSetNotations.
 Open Scope N_scope.
@@ -105,3 +105,14 @@ Proof.
   split. { vm_compute. tauto. }
   split; [vm_compute; reflexivity|]. split; vm_compute; reflexivity.
 Qed.
+
+(* ... and on a connection that negotiated permessage-deflate (DeliveryZ.v): compressed and uncompressed messages in any
+   fragmentation around the Pings; the Pongs are never compressed (C06_control_frames_never_compressed) *)
+Theorem C14_one_pong_per_ping_in_order_compressed_connection : forall cf app, benign app -> zpos (c_ping_timeout cf) = None ->
+  forall d fs lfs ds c open tape ms open' tape',
+  c_auto_pong cf = true -> c_ping_rate cf = 0%Z ->
+  Proofs.DeliveryZ.idle_z d c open tape -> data_head open -> Forall Proofs.DeliveryZ.zframe fs -> forms_ok fs lfs ->
+  Proofs.DeliveryZ.ref_messages_z open tape fs = Some (ms, open', tape') -> concat ds = encode_all fs lfs -> wok c ->
+  exists c', feed_chunks cf app c ds = (c', SOk) /\ wok c' /\ writes (k_tr c') = rev (pong_replies ms) ++ writes (k_tr c).
+Proof. exact Proofs.DeliveryZ.pongs_in_order_z. Qed.
+Print Assumptions C14_one_pong_per_ping_in_order_compressed_connection.
